@@ -311,6 +311,73 @@ pub fn run(ctx: &Ctx) {
     ctx.bound(sub, &format!("{} URL forms x 3 rule kinds x {} load-path lists x {} importer locations x (no file, every single candidate, every pair of candidates{})", urls.len(), lp_lists.len(), importers.len(), if ctx.thorough() { ", every triple for `foo` with one load path" } else { "" }), true);
     ctx.sample(sub, json!({"entry": "@import \"foo\";", "files": ["foo.scss", "lp1/_foo.import.sass"], "load_paths": ["lp1", "lp2"], "expected": "foo.scss"}));
 
+    // ---- the same URL from two importers: every resolution is independent of earlier ones -----
+    {
+        let sub = "two-importers";
+        let uni: Vec<&str> = vec!["foo.scss", "_foo.scss", "sub/foo.scss", "sub/_foo.sass", "lp1/foo.scss", "lp2/foo.scss", "lp1/_foo.scss"];
+        let lps = ["lp1", "lp2"];
+        // (kind, order) x subsets of the universe
+        let nsub = 1u64 << uni.len();
+        let variants: Vec<(Kind, bool)> = vec![(Kind::Import, false), (Kind::Import, true), (Kind::Use, false), (Kind::Use, true)];
+        par(
+            ctx,
+            sub,
+            nsub * variants.len() as u64,
+            |i| json!({"files": uni.iter().enumerate().filter(|(k, _)| (i % nsub) & (1 << k) != 0).map(|x| x.1).collect::<Vec<_>>(), "variant": format!("{:?}", variants[(i / nsub) as usize])}),
+            |i, l| {
+                let mask = i % nsub;
+                let (kind, sub_first) = variants[(i / nsub) as usize];
+                let files: Vec<String> = uni.iter().enumerate().filter(|(k, _)| mask & (1 << k) != 0).map(|x| x.1.to_string()).collect();
+                let fileset: BTreeSet<String> = files.iter().cloned().collect();
+                let locs_main: Vec<String> = vec!["".into(), "lp1".into(), "lp2".into()];
+                let locs_sub: Vec<String> = vec!["sub".into(), "lp1".into(), "lp2".into()];
+                let r_main = resolve(&fileset, "foo", kind, &locs_main);
+                let r_sub = resolve(&fileset, "foo", kind, &locs_sub);
+                if r_main == Res::Ambiguous || r_sub == Res::Ambiguous {
+                    l.count("excluded_ambiguous_same_priority", 1);
+                    return;
+                }
+                let (rule_foo, rule_x, x_body) = match kind {
+                    Kind::Import => ("@import \"foo\";", "@import \"sub/x\";", "@import \"foo\";"),
+                    _ => ("@use \"foo\" as a;", "@use \"sub/x\" as x;", "@use \"foo\" as b;"),
+                };
+                let main_src = if sub_first { format!("{}\n{}\n", rule_x, rule_foo) } else { format!("{}\n{}\n", rule_foo, rule_x) };
+                let mut fs = MemFs::new();
+                fs.add("e.scss", &main_src);
+                fs.add("sub/x.scss", x_body);
+                for f in &files {
+                    fs.add(f, &file_content(f));
+                }
+                let cfg = Cfg { syntax: None, load_paths: lps.iter().map(|s| s.to_string()).collect(), ..Cfg::default() };
+                l.evals += 1;
+                let o = compile_path("e.scss", &cfg, &Env { fs: &fs, logger: &grass_compiler::NullLogger });
+                l.outcome(o.digest());
+                l.validated += 1;
+                let key = format!("two-importers:{:?}:{}:files={}", kind, if sub_first { "sub-first" } else { "main-first" }, files.join("+"));
+                let detail = json!({"e.scss": main_src, "sub/x.scss": x_body, "files": files, "load_paths": lps, "observed": o.brief()});
+                match (&r_main, &r_sub, &o) {
+                    (_, _, Outcome::Panic(p)) => ctx.violation(sub, &key, &format!("panic: {}", p), detail),
+                    (Res::Hit(hm), Res::Hit(hs), Outcome::Ok(cssout)) => {
+                        l.nontrivial += 1;
+                        let got: Vec<String> = css::flatten(&css::parse(cssout).unwrap_or_default()).into_iter().flat_map(|b| b.decls).filter(|d| d.0 == "from").map(|d| d.1).collect();
+                        let mut want: Vec<String> = if sub_first { vec![marker_id(hs), marker_id(hm)] } else { vec![marker_id(hm), marker_id(hs)] };
+                        if kind != Kind::Import {
+                            want.dedup(); // one module, loaded once
+                        }
+                        if got != want {
+                            ctx.violation(sub, &key, &format!("the entry file must load {} and sub/x.scss must load {}: expected markers {:?}, got {:?}", hm, hs, want, got), detail);
+                        }
+                    }
+                    (Res::Hit(_), Res::Hit(_), Outcome::Err(e)) => ctx.violation(sub, &key, &format!("both imports have a match but the compilation fails: {}", e.message), detail),
+                    (_, _, Outcome::Ok(c)) => ctx.violation(sub, &key, &format!("one of the imports has no match but the compilation succeeds: {:?}", c), detail),
+                    (_, _, Outcome::Err(_)) => l.count("no_match_is_error", 1),
+                }
+            },
+        );
+        ctx.bound(sub, "`foo` loaded from the entry file and from sub/x.scss, in both orders, with @import and with @use, over all 2^7 subsets of 7 candidate files in the entry directory, sub/ and two load paths: each importer gets the file its own search order selects", true);
+        ctx.sample(sub, json!({"e.scss": "@import \"foo\";\n@import \"sub/x\";", "sub/x.scss": "@import \"foo\";", "files": ["lp1/foo.scss", "sub/foo.scss"]}));
+    }
+
     // ---- plain-CSS imports are emitted, never loaded -----------------------------------------
     let sub = "plain-css-imports";
     let plain: Vec<(&str, &str)> = vec![
